@@ -15,6 +15,9 @@ func runC01(w *World) {
 	w.Stalls = true
 	w.MaxSteps = 60000
 	w.Net.CapsOracle = true
+	if w.Chance(1, 4, "slow-logger") {
+		w.SlowLogger(800)
+	}
 	maxPeers := 3
 	if w.Tier == "thorough" {
 		maxPeers = 4
